@@ -9,8 +9,8 @@ From Coq Require Import List ZArith Bool String Ascii.
 Import ListNotations.
 Local Open Scope Z_scope.
 
-Definition byte := Z.
-Definition str := list byte.
+Notation byte := Z (only parsing).
+Notation str := (list Z) (only parsing).
 
 Definition zs (s : string) : str :=
   map (fun a => Z.of_N (N_of_ascii a)) (list_ascii_of_string s).
@@ -138,9 +138,8 @@ Fixpoint read_digs_w (w : nat) (isd : Z -> bool) (base : Z) (s : str) (acc : Z) 
 
 Definition sc_sign (s : str) : bool * str :=
   match s with
-  | 45 :: r => (true, r)
-  | 43 :: r => (false, r)
-  | _ => (false, s)
+  | c :: r => if c =? 45 then (true, r) else if c =? 43 then (false, r) else (false, s)
+  | [] => (false, s)
   end.
 Definition sgn (neg : bool) (v : Z) : Z := if neg then - v else v.
 
@@ -171,7 +170,7 @@ Definition sc_d_w (w : nat) (s : str) : option (Z * str) :=
 Definition sc_x (s : str) : option (Z * str) :=
   let (neg, s2) := sc_sign (skip_ws s) in
   let s3 := match s2 with
-            | 48 :: x :: r => if ((x =? 120) || (x =? 88)) && isxdigit (hd0 r) then r else s2
+            | z :: x :: r => if (z =? 48) && ((x =? 120) || (x =? 88)) && isxdigit (hd0 r) then r else s2
             | _ => s2
             end in
   if isxdigit (hd0 s3) then let (v, r) := read_digs isxdigit 16 s3 0 in Some (sgn neg v, r)
@@ -182,20 +181,21 @@ Definition sc_x_w (w : nat) (s : str) : option (Z * str) :=
   else None.
 
 (* %i: white space, optional sign, then 0x hex | 0 octal | decimal *)
-Definition sc_i (s : str) : option (Z * str) :=
-  let (neg, s2) := sc_sign (skip_ws s) in
+Definition sc_i_body (neg : bool) (s2 : str) : option (Z * str) :=
   match s2 with
-  | 48 :: x :: r =>
-      if (x =? 120) || (x =? 88)
-      then (if isxdigit (hd0 r) then let (v, r') := read_digs isxdigit 16 r 0 in Some (sgn neg v, r')
+  | c :: r0 =>
+      if (c =? 48) && ((hd0 r0 =? 120) || (hd0 r0 =? 88))
+      then (let r := skipn 1 r0 in
+            if isxdigit (hd0 r) then let (v, r') := read_digs isxdigit 16 r 0 in Some (sgn neg v, r')
             else None)
-      else let (v, r') := read_digs isodigit 8 s2 0 in Some (sgn neg v, r')
-  | c :: _ => if isdigit c
-              then (if c =? 48 then let (v, r') := read_digs isodigit 8 s2 0 in Some (sgn neg v, r')
-                    else let (v, r') := read_digs isdigit 10 s2 0 in Some (sgn neg v, r'))
-              else None
+      else if isdigit c
+           then (if c =? 48 then let (v, r') := read_digs isodigit 8 s2 0 in Some (sgn neg v, r')
+                 else let (v, r') := read_digs isdigit 10 s2 0 in Some (sgn neg v, r'))
+           else None
   | [] => None
   end.
+Definition sc_i (s : str) : option (Z * str) :=
+  let (neg, s2) := sc_sign (skip_ws s) in sc_i_body neg s2.
 
 (* a literal character of a format string *)
 Definition lit (c : Z) (s : str) : option str :=
